@@ -1,5 +1,7 @@
 import YaqsModel.Lemmas.Index
 import YaqsModel.Lemmas.MasterEq
+import YaqsModel.Lemmas.MasterEqExec
+import YaqsModel.Model.Pipeline
 import Mathlib.Data.Complex.Basic
 import Mathlib.Tactic.NormNum
 import Mathlib.Algebra.BigOperators.Group.List.Basic
@@ -612,5 +614,478 @@ example : jumpWeights 2 [⟨1 / 2, [[0, 1], [0, 0]]⟩] [⟨3 / 5, 0⟩, ⟨4 / 
       = [(369 / 400, Lottery.Branch.noJump), (31 / 400, Lottery.Branch.jump 0)] := by decide +kernel
 
 end Examples
+
+end Yaqs.MasterEq
+
+/-!
+# C06, extension 2 — the *executable* one-step MCWF, read-out and conversion functions the driver runs
+
+Every definition of `Model/MasterEq.lean` (and of `Model/MasterEqExec.lean`) that `Driver/Index.lean` executes — and that
+the correspondence therefore ties to the real `mcwf` / `lindblad` — is the subject of a theorem below:
+
+| executable definition | mirrors (`analog/mcwf.py`, `analog/lindblad.py`) | theorem |
+|---|---|---|
+| `pJump`            | `p_jump = 1.0 - np.vdot(psi_next, psi_next).real` (exact norm loss, not the first-order expression) | `mcwf_exec_pjump`, `exec_first_order_jump_probability` |
+| `mcwfTaken`        | `if r < p_jump:` / `if normalization_sum < 1e-15:` / `rng.choice(len(jump_ops), p=weights)` | `mcwf_exec_taken`, `mcwf_exec_pv`, `mcwf_exec_calls` |
+| `postState`        | `psi = jump_ops[k] @ param_psi; psi /= norm(psi)` resp. `psi = psi_next / sqrt(norm_sq)` | `mcwf_exec_post`, `mcwf_exec_post_scale_free` |
+| `reportedOneStep`  | `measure(psi, 0)` if sampling, `measure(psi, t_idx)` AFTER the state was replaced, `results[:, -1:]` | `mcwf_exec_reported` |
+| `obsValue`, `obsValuePure` | `np.trace(op_mat @ rho_t).real`, `np.vdot(psi, op_mat.dot(psi)).real`, `0.0` for diagnostics | `obs_exec` |
+| `ofIndexMat`       | materialising what `_embed_operator_sparse` / `_embed_observable_sparse` return | `index_mat_roundtrip`, `exec_embed_entry` |
+| `solverTol`        | `rtol=sim_params.threshold, atol=sim_params.threshold * 1e-2` | `solver_tol_rule` |
+| `pureRho`, `postRho`, `opCalls`, `oneStepCols` (new, `Model/MasterEqExec.lean`) | `ctx.output_state`, the products `op @ param_psi`, the returned array | `mcwf_exec_post`, `mcwf_exec_calls`, `mcwf_exec_reported` |
+
+The list ↔ Matrix reading is the one of `list_model_refines_matrix_model`: `toM m` for matrices, `toV m` for vectors
+(entries outside the lists read as `0`).
+-/
+namespace Yaqs.MasterEq
+
+open Matrix Yaqs.Dist
+
+/-- **C06.14 `mcwf_exec_pjump`** (`norm_sq = np.vdot(psi_next, psi_next).real; p_jump = 1.0 - norm_sq; r = rng.random();
+    if r < p_jump`)  The executable jump probability is the *exact* norm loss `1 − ⟨ψ̃|ψ̃⟩` of the propagated,
+    unnormalised state `ψ̃ = exp(−i H_eff dt) ψ` (first conjunct, under the list ↔ vector reading `toV`) — not the
+    first-order expression `dt·Σγ‖Lψ‖²` (the two are related by `exec_first_order_jump_probability`).  It never exceeds 1
+    but may be negative (`‖ψ̃‖ > 1` by rounding): then no draw jumps.  Third conjunct: for a draw `r` of
+    `Generator.random` (`0 ≤ r < 1`), the code's test `r < p_jump` is the test `r < jumpProb ‖ψ̃‖²` with the clamped
+    probability `jumpProb = min 1 (max 0 ·)` that weights the branches of `mcwfStepDist` in `mcwf_step_is_c01_lottery` /
+    `mcwf_step_mass`: the draws that jump are exactly the interval `[0, jumpProb)`, of length `jumpProb`. -/
+theorem mcwf_exec_pjump (m : Nat) (ψnext : CVec) (hl : ψnext.length = m) (r : Rat) (hr0 : 0 ≤ r) (hr1 : r < 1) :
+    CRat.ofRat (pJump ψnext) = 1 - star (toV m ψnext) ⬝ᵥ toV m ψnext
+    ∧ pJump ψnext ≤ 1
+    ∧ (r < pJump ψnext ↔ r < Lottery.jumpProb (vnormSq ψnext)) := by
+  have hn := vnormSq_nonneg ψnext
+  refine ⟨?_, ?_, ?_⟩
+  · unfold pJump
+    rw [ofRat_sub, vnormSq_eq m ψnext hl]
+    rfl
+  · unfold pJump; linarith
+  · unfold pJump Lottery.jumpProb Lottery.stochasticFactor
+    rw [lt_min_iff, lt_max_iff]
+    constructor
+    · intro h; exact ⟨hr1, Or.inr h⟩
+    · rintro ⟨_, h | h⟩
+      · exact absurd h (not_lt.mpr hr0)
+      · exact h
+
+/-- **C06.15 `mcwf_exec_taken`** (the branch structure of one pass) For every input, draw `r` and index `k`, exactly one
+    of four things happens, decided by these conditions and no others:
+    * `noJump` **iff** `p_jump ≤ r` — the code tests `r < p_jump` with a *strict* inequality, so the boundary draw
+      `r = p_jump` does **not** jump (fifth conjunct; in particular `r = 0`, `p_jump = 0` of a noise-free run);
+    * `noJumpEps` **iff** `r < p_jump` and `Σ_k γ_k‖L_kψ‖² < 1e-15` (weights of the state at the START of the step):
+      the renormalised no-jump state is used although the draw asked for a jump;
+    * `jump k pv` **iff** `r < p_jump`, `1e-15 ≤ Σ`, `k` indexes `jump_ops`; then `pv` is the weight list divided by its
+      sum — the vector handed to `rng.choice` — and the reported index is the `k` that `choice` returned;
+    * `none` (the model refuses) **iff** the jump branch is reached with a `k` that is not an index of `jump_ops`
+      (`Generator.choice(n)` never returns such a `k`; the driver answers `bad-op`). -/
+theorem mcwf_exec_taken (m : Nat) (Ls : List (Proc CMat)) (ψ ψnext : CVec) (r : Rat) (k : Nat) :
+    (mcwfTaken m Ls ψ ψnext r k = some .noJump ↔ pJump ψnext ≤ r)
+    ∧ (mcwfTaken m Ls ψ ψnext r k = some .noJumpEps
+        ↔ r < pJump ψnext ∧ (jumpWeights m Ls ψ).sum < Lottery.mcwfEps)
+    ∧ (∀ k' pv, mcwfTaken m Ls ψ ψnext r k = some (.jump k' pv)
+        ↔ r < pJump ψnext ∧ Lottery.mcwfEps ≤ (jumpWeights m Ls ψ).sum ∧ k < Ls.length ∧ k' = k
+          ∧ pv = (jumpWeights m Ls ψ).map (· / (jumpWeights m Ls ψ).sum))
+    ∧ (mcwfTaken m Ls ψ ψnext r k = none
+        ↔ r < pJump ψnext ∧ Lottery.mcwfEps ≤ (jumpWeights m Ls ψ).sum ∧ Ls.length ≤ k)
+    ∧ mcwfTaken m Ls ψ ψnext (pJump ψnext) k = some .noJump := by
+  have key : ∀ r : Rat,
+      (mcwfTaken m Ls ψ ψnext r k = some .noJump ↔ pJump ψnext ≤ r)
+      ∧ (mcwfTaken m Ls ψ ψnext r k = some .noJumpEps
+          ↔ r < pJump ψnext ∧ (jumpWeights m Ls ψ).sum < Lottery.mcwfEps)
+      ∧ (∀ k' pv, mcwfTaken m Ls ψ ψnext r k = some (.jump k' pv)
+          ↔ r < pJump ψnext ∧ Lottery.mcwfEps ≤ (jumpWeights m Ls ψ).sum ∧ k < Ls.length ∧ k' = k
+            ∧ pv = (jumpWeights m Ls ψ).map (· / (jumpWeights m Ls ψ).sum))
+      ∧ (mcwfTaken m Ls ψ ψnext r k = none
+          ↔ r < pJump ψnext ∧ Lottery.mcwfEps ≤ (jumpWeights m Ls ψ).sum ∧ Ls.length ≤ k) := by
+    intro r
+    unfold mcwfTaken
+    by_cases h1 : r < pJump ψnext
+    · by_cases h2 : (jumpWeights m Ls ψ).sum < Lottery.mcwfEps
+      · have h2' : ¬ Lottery.mcwfEps ≤ (jumpWeights m Ls ψ).sum := not_le.mpr h2
+        simp [h1, h2, h2', not_le.mpr h1]
+      · have h2' : Lottery.mcwfEps ≤ (jumpWeights m Ls ψ).sum := not_lt.mp h2
+        by_cases h3 : k < Ls.length
+        · simp only [h1, h2, h3, h2', if_true, if_false, not_le.mpr h1, not_le.mpr h3, true_and, and_false,
+            reduceCtorEq, Option.some.injEq, and_true]
+          intro k' pv
+          constructor
+          · intro h; cases h; exact ⟨rfl, rfl⟩
+          · rintro ⟨rfl, rfl⟩; rfl
+        · simp [h1, h2, h3, h2', not_le.mpr h1, not_lt.mp h3]
+    · simp [h1, not_lt.mp h1]
+  obtain ⟨a, b, c, d⟩ := key r
+  exact ⟨a, b, c, d, (key (pJump ψnext)).1.mpr (le_refl _)⟩
+
+/-- **C06.16 `mcwf_exec_pv`** (what `rng.choice` is given, and the link to the outcome distribution) On the jump branch
+    the probability vector has one entry per kept jump operator, in list order; entry `j` is `γ_j‖L_jψ‖²/Σ` computed from
+    the state at the START of the step; the entries sum to one (so `Generator.choice` accepts them) and are `≥ 0` for
+    strengths `≥ 0` — an entry may be exactly `0` (a jump operator that annihilates `ψ`, e.g. lowering on `|0⟩`), and
+    such a `k` has probability 0.  The outcome distribution `mcwfStepDist` of `mcwf_step_is_c01_lottery` /
+    `mcwf_step_mass` is the lottery on exactly this vector; on the `1e-15` fall-back it is the point mass on "no jump". -/
+theorem mcwf_exec_pv (m : Nat) (Ls : List (Proc CMat)) (ψ ψnext : CVec) (r : Rat) (k : Nat) :
+    (∀ (k' : Nat) (pv : List Rat), mcwfTaken m Ls ψ ψnext r k = some (.jump k' pv) →
+        pv.length = Ls.length ∧ pv.sum = 1
+        ∧ (∀ j : Nat, pv[j]? = (Ls[j]?).map fun (p : Proc CMat) => p.gamma * vnormSq (mulVec m p.op ψ) / (jumpWeights m Ls ψ).sum)
+        ∧ ((∀ p ∈ Ls, 0 ≤ p.gamma) → ∀ q ∈ pv, 0 ≤ q)
+        ∧ mcwfStepDist m Ls ψ ψnext = Lottery.lottery (vnormSq ψnext) pv)
+    ∧ (mcwfTaken m Ls ψ ψnext r k = some .noJumpEps → mcwfStepDist m Ls ψ ψnext = [(1, Lottery.Branch.noJump)]) := by
+  obtain ⟨_, hb, hc, _, _⟩ := mcwf_exec_taken m Ls ψ ψnext r k
+  constructor
+  · intro k' pv h
+    obtain ⟨_, hW, _, _, rfl⟩ := (hc k' pv).mp h
+    have hpos : (0 : Rat) < Lottery.mcwfEps := by decide +kernel
+    have hW0 : 0 < (jumpWeights m Ls ψ).sum := lt_of_lt_of_le hpos hW
+    refine ⟨by simp [jumpWeights], ?_, ?_, ?_, ?_⟩
+    · rw [Lottery.sum_map_div, div_self (ne_of_gt hW0)]
+    · intro j
+      simp only [jumpWeights, List.getElem?_map, Option.map_map]
+      rfl
+    · intro hg q hq
+      obtain ⟨w, hw, rfl⟩ := List.mem_map.mp hq
+      exact div_nonneg (jumpWeights_nonneg m Ls ψ hg w hw) (le_of_lt hW0)
+    · unfold mcwfStepDist
+      simp [not_lt.mpr hW]
+  · intro h
+    obtain ⟨_, hW⟩ := hb.mp h
+    unfold mcwfStepDist
+    simp [hW]
+
+/-- **C06.17 `mcwf_exec_post`** (the state after the pass; `postState` returns a pair `(v, c)` standing for `v/√c`)
+    * on both no-jump outcomes the new state is the propagated state `ψ̃` divided by its own norm
+      (`psi_next / np.sqrt(norm_sq)`);
+    * on `jump k` (with `k` an index of the kept operators) it is `L_k ψ` divided by its own norm, `L_k` applied to the
+      state at the START of the step — under `toM`/`toV` the Matrix product `L_k *ᵥ ψ` with squared norm `⟨L_kψ|L_kψ⟩`;
+    * in every case the normaliser is the squared norm of the vector it accompanies, and the density matrix `postRho`
+      of the new state (what `ctx.output_state` holds, as `|ψ⟩⟨ψ|`) has trace exactly 1 whenever that norm is not 0;
+    * a jump index whose probability-vector entry is not 0 never divides by zero (`Generator.choice` does not return
+      indices of probability 0 — spec-tied). -/
+theorem mcwf_exec_post (m : Nat) (Ls : List (Proc CMat)) (ψ ψnext : CVec) :
+    postState m Ls ψ ψnext .noJump = (ψnext, vnormSq ψnext)
+    ∧ postState m Ls ψ ψnext .noJumpEps = (ψnext, vnormSq ψnext)
+    ∧ (∀ k pv p, Ls[k]? = some p →
+        postState m Ls ψ ψnext (.jump k pv) = (mulVec m p.op ψ, vnormSq (mulVec m p.op ψ))
+        ∧ toV m (mulVec m p.op ψ) = toM m p.op *ᵥ toV m ψ
+        ∧ CRat.ofRat (vnormSq (mulVec m p.op ψ)) = star (toM m p.op *ᵥ toV m ψ) ⬝ᵥ (toM m p.op *ᵥ toV m ψ))
+    ∧ (∀ t, (postState m Ls ψ ψnext t).2 = vnormSq (postState m Ls ψ ψnext t).1)
+    ∧ (∀ t, (postState m Ls ψ ψnext t).1.length = m → (postState m Ls ψ ψnext t).2 ≠ 0 →
+        mtrace m (postRho m Ls ψ ψnext t) = 1)
+    ∧ (∀ r k pv q, mcwfTaken m Ls ψ ψnext r k = some (.jump k pv) → pv[k]? = some q → q ≠ 0 →
+        (postState m Ls ψ ψnext (.jump k pv)).2 ≠ 0) := by
+  have hnorm : ∀ t, (postState m Ls ψ ψnext t).2 = vnormSq (postState m Ls ψ ψnext t).1 := by
+    intro t
+    cases t with
+    | noJump => rfl
+    | noJumpEps => rfl
+    | jump k pv =>
+      simp only [postState]
+      split <;> rfl
+  refine ⟨rfl, rfl, ?_, hnorm, ?_, ?_⟩
+  · intro k pv p hp
+    refine ⟨?_, toV_mulVec m p.op ψ, vnormSq_mulVec m p.op ψ⟩
+    simp only [postState, hp]
+  · intro t hl hc
+    unfold postRho
+    have h2 := hnorm t
+    generalize postState m Ls ψ ψnext t = vc at hl hc h2
+    obtain ⟨v, c⟩ := vc
+    simp only at hl hc h2 ⊢
+    rw [← trace_toM, toM_pureRho, trace_smul, trace_vecMulVec, dotProduct_comm, ← vnormSq_eq m v hl, ← h2, smul_eq_mul,
+      ← ofRat_mul, one_div, inv_mul_cancel₀ hc]
+    rfl
+  · intro r k pv q h hq hq0
+    obtain ⟨_, _, hc, _, _⟩ := mcwf_exec_taken m Ls ψ ψnext r k
+    obtain ⟨_, hW, hk, _, rfl⟩ := (hc k pv).mp h
+    obtain ⟨_, _, hj, _, _⟩ := (mcwf_exec_pv m Ls ψ ψnext r k).1 k _ h
+    have hp : Ls[k]? = some Ls[k] := List.getElem?_eq_getElem hk
+    rw [hj k, hp] at hq
+    simp only [Option.map_some, Option.some.injEq] at hq
+    simp only [postState, hp]
+    intro h0
+    apply hq0
+    rw [← hq, h0, mul_zero, zero_div]
+
+/-- **C06.17b `mcwf_exec_post_scale_free`** (`jump_ops.append(np.sqrt(strength) * op_full)`) The model applies the
+    *unscaled* `L_k`, the code the scaled `J_k = s·L_k` (`s = √γ_k`).  For every real `s ≠ 0` the pair the code's vector
+    would give — `J_k ψ` with its own squared norm — denotes the same state: same density matrix, hence (by `obs_exec`)
+    the same value of every observable.  So the post-jump state does not depend on the strength. -/
+theorem mcwf_exec_post_scale_free (m : Nat) (L : CMat) (ψ : CVec) (s : Rat) (hs : s ≠ 0) :
+    pureRho m (mulVec m (msmul m (CRat.ofRat s) L) ψ) (vnormSq (mulVec m (msmul m (CRat.ofRat s) L) ψ))
+      = pureRho m (mulVec m L ψ) (vnormSq (mulVec m L ψ))
+    ∧ ∀ O, obsValuePure m (mulVec m (msmul m (CRat.ofRat s) L) ψ) (vnormSq (mulVec m (msmul m (CRat.ofRat s) L) ψ)) O
+      = obsValuePure m (mulVec m L ψ) (vnormSq (mulVec m L ψ)) O := by
+  have h1 : pureRho m (mulVec m (msmul m (CRat.ofRat s) L) ψ) (vnormSq (mulVec m (msmul m (CRat.ofRat s) L) ψ))
+      = pureRho m (mulVec m L ψ) (vnormSq (mulVec m L ψ)) := by
+    rw [mulVec_msmul, vnormSq_scale, pureRho_scale m _ _ s hs]
+  refine ⟨h1, ?_⟩
+  intro O
+  cases O with
+  | diagnostic => rfl
+  | op O => rw [← obsValue_pureRho, ← obsValue_pureRho, h1]
+
+/-- **C06.18 `mcwf_exec_reported`** (which state the reported numbers belong to) For one pass on a grid of two points,
+    `oneStepCols` — the composition the driver prints and the tie compares with the array the real `mcwf` returns — is:
+    the branch of `mcwf_exec_taken`; then with `sample_timesteps` two columns, the observables of the initial state `ψ`
+    (BEFORE the step) and the observables of the new state of `mcwf_exec_post` (AFTER the jump resp. after the
+    renormalisation, never the pre-jump state and never the unnormalised `ψ̃`); without `sample_timesteps` only the latter
+    (`results[:, -1:]`).  Second conjunct: this is C15's `columns` at `n = 2` — assigning to a column the value of the
+    state whose history `Pipeline.mcwfOut` records (`[]` = initial state, `[Ueff, Lot]` = after propagation and
+    lottery) gives the same array. -/
+theorem mcwf_exec_reported (m : Nat) (Ls : List (Proc CMat)) (obs : List Obs) (ψ ψnext : CVec) (r : Rat) (k : Nat)
+    (sample : Bool) (v0 v1 : List Rat) :
+    oneStepCols m Ls obs sample ψ ψnext r k
+        = (mcwfTaken m Ls ψ ψnext r k).map (fun t =>
+            (if sample then [obs.map (obsValuePure m ψ (vnormSq ψ))] else [])
+              ++ [obs.map (obsValuePure m (postState m Ls ψ ψnext t).1 (postState m Ls ψ ψnext t).2)])
+    ∧ reportedOneStep sample v0 v1
+        = (Pipeline.mcwfOut sample 2).map (fun h => if h = some [] then v0 else v1)
+    ∧ Pipeline.mcwfOut true 2 = [some [], some [Pipeline.Op.Ueff, Pipeline.Op.Lot]]
+    ∧ Pipeline.mcwfOut false 2 = [some [Pipeline.Op.Ueff, Pipeline.Op.Lot]]
+    ∧ (reportedOneStep sample v0 v1).getLast? = some v1
+    ∧ (reportedOneStep sample v0 v1).length = if sample then 2 else 1 := by
+  have e1 : Pipeline.mcwfOut true 2 = [some [], some [Pipeline.Op.Ueff, Pipeline.Op.Lot]] := by decide
+  have e2 : Pipeline.mcwfOut false 2 = [some [Pipeline.Op.Ueff, Pipeline.Op.Lot]] := by decide
+  refine ⟨?_, ?_, e1, e2, ?_, ?_⟩
+  · unfold oneStepCols reportedOneStep
+    cases sample <;> rfl
+  · cases sample
+    · rw [e2]; simp [reportedOneStep]
+    · rw [e1]; simp [reportedOneStep]
+  · cases sample <;> simp [reportedOneStep]
+  · cases sample <;> simp [reportedOneStep]
+
+/-- **C06.18b `mcwf_exec_calls`** (what the pass does to `ctx.jump_ops`, and that the three outcomes are observably
+    different) `opCalls` lists the operators multiplied onto the start-of-step state, in program order: none on
+    `noJump`; every kept operator once, in list order, on the `1e-15` fall-back; every kept operator once and then the
+    chosen one again on a jump.  Hence the recorded call list determines the outcome (up to the probability vector),
+    and `noJump` / `noJumpEps` — which leave the same state — are still told apart by the tie. -/
+theorem mcwf_exec_calls (nOps : Nat) (t t' : Taken) :
+    (opCalls nOps t).length
+        = (match t with | .noJump => 0 | .noJumpEps => nOps | .jump _ _ => nOps + 1)
+    ∧ (opCalls nOps t = [] ↔ t = .noJump ∨ (nOps = 0 ∧ t = .noJumpEps))
+    ∧ (0 < nOps → opCalls nOps t = opCalls nOps t' →
+        (t = .noJump ↔ t' = .noJump) ∧ (t = .noJumpEps ↔ t' = .noJumpEps)
+        ∧ ∀ k pv, t = .jump k pv → ∃ pv', t' = .jump k pv') := by
+  have hlen : ∀ t : Taken, (opCalls nOps t).length
+      = (match t with | .noJump => 0 | .noJumpEps => nOps | .jump _ _ => nOps + 1) := by
+    intro t; cases t <;> simp [opCalls]
+  refine ⟨hlen t, ?_, ?_⟩
+  · cases t with
+    | noJump => simp [opCalls]
+    | noJumpEps => simp [opCalls, List.range_eq_nil]
+    | jump k pv => simp [opCalls]
+  · intro hpos h
+    have hl := congrArg List.length h
+    rw [hlen t, hlen t'] at hl
+    cases t with
+    | noJump =>
+      cases t' with
+      | noJump => exact ⟨Iff.rfl, Iff.rfl, fun _ _ hh => by cases hh⟩
+      | noJumpEps => simp only at hl; omega
+      | jump k' pv' => simp only at hl; omega
+    | noJumpEps =>
+      cases t' with
+      | noJump => simp only at hl; omega
+      | noJumpEps => exact ⟨Iff.rfl, Iff.rfl, fun _ _ hh => by cases hh⟩
+      | jump k' pv' => simp only at hl; omega
+    | jump k pv =>
+      cases t' with
+      | noJump => simp only at hl; omega
+      | noJumpEps => simp only at hl; omega
+      | jump k' pv' =>
+        have hk : [k] = [k'] := List.append_cancel_left h
+        have hk' : k = k' := by simpa using hk
+        refine ⟨by simp, by simp, ?_⟩
+        intro k0 pv0 hh
+        cases hh
+        exact ⟨pv', by rw [hk']⟩
+
+/-- **C06.19 `obs_exec`** (the two read-outs) Under the list ↔ Matrix reading:
+    * `obsValue ρ O = Re Tr(O ρ)` (`np.trace(op_mat @ rho_t).real`) and `obsValuePure (v, c) O = Re ⟨v|O|v⟩ / c`
+      (`np.vdot(psi, op_mat.dot(psi)).real` on `psi = v/√c`); both are `0` for a structural diagnostic;
+    * they agree on a pure state: `obsValue (|v⟩⟨v|/c) O = obsValuePure (v, c) O` — the list form of
+      `observable_is_trace`, so the Lindblad solver (which starts from `np.outer(psi, psi.conj())`, `c = 1`) and the MCWF
+      solver report the same number for the same state;
+    * taking `.real` discards nothing when `O` and `ρ` are Hermitian: the imaginary parts of `Tr(O ρ)` and of
+      `⟨v|O|v⟩` are exactly `0`. -/
+theorem obs_exec (m : Nat) (O ρ : CMat) (v : CVec) (c : Rat) :
+    obsValue m ρ (.op O) = (trace (toM m O * toM m ρ)).re
+    ∧ obsValuePure m v c (.op O) = (star (toV m v) ⬝ᵥ (toM m O *ᵥ toV m v)).re / c
+    ∧ obsValue m ρ .diagnostic = 0 ∧ obsValuePure m v c .diagnostic = 0
+    ∧ obsValue m (pureRho m v c) (.op O) = obsValuePure m v c (.op O)
+    ∧ toM m (pureRho m v c) = CRat.ofRat (1 / c) • vecMulVec (toV m v) (star (toV m v))
+    ∧ ((toM m O)ᴴ = toM m O → (toM m ρ)ᴴ = toM m ρ → (mtrace m (mmul m O ρ)).im = 0)
+    ∧ ((toM m O)ᴴ = toM m O → (vdot m v (mulVec m O v)).im = 0) := by
+  refine ⟨?_, ?_, rfl, rfl, obsValue_pureRho m O v c, toM_pureRho m v c, ?_, ?_⟩
+  · show (mtrace m (mmul m O ρ)).re = _
+    rw [obs_trace_eq]
+  · show (vdot m v (mulVec m O v)).re / c = _
+    rw [obs_pure_eq]
+  · intro hO hρ
+    rw [obs_trace_eq]
+    exact trace_mul_real _ _ hO hρ
+  · intro hO
+    rw [obs_pure_eq]
+    exact expect_real _ hO _
+
+/-- **C06.20 `index_mat_roundtrip`** (`ofIndexMat`, the conversion between the index functions of the first half of this
+    file and the row lists the solver model computes with) Reading the list back gives the index function on every
+    in-range position (so nothing is shifted, transposed or truncated), the list is square of the requested size, its
+    Matrix reading is `Matrix.of` the index function, and a well-shaped list converted to an index function and back is
+    unchanged. -/
+theorem index_mat_roundtrip (n : Nat) (A : Index.Mat CRat) (B : CMat) :
+    (∀ i j, i < n → j < n → get (ofIndexMat n A) i j = A.e i j)
+    ∧ (ofIndexMat n A).length = n ∧ (∀ row ∈ ofIndexMat n A, row.length = n)
+    ∧ toM n (ofIndexMat n A) = (Matrix.of fun (i j : Fin n) => A.e i j)
+    ∧ (B.length = n → (∀ row ∈ B, row.length = n) → ofIndexMat n ⟨n, n, get B⟩ = B) := by
+  refine ⟨fun i j hi hj => get_tab n _ i j hi hj, length_tab n _, ?_, toM_tab n _, fun h1 h2 => tab_get n B h1 h2⟩
+  intro row hrow
+  unfold ofIndexMat tab at hrow
+  obtain ⟨i, _, rfl⟩ := List.mem_map.mp hrow
+  simp
+
+/-- **C06.20b `exec_embed_entry`** the matrices the driver feeds to the solver model are the `kron_entry` objects:
+    for any index matrix `E` on `L` qubits the list `ofIndexMat (2^L) E` holds, at the positions `kronIdx` assigns to two
+    basis states, the entry `E` has there; for `E = _embed_generic(sites=[i], A)` that entry is `A[x, x']` if all other
+    digits agree and `0` otherwise (`embed_site_one`; the same composition applies to `embed_site_adjacent` and
+    `embed_site_factors`). -/
+theorem exec_embed_entry (L : Nat) (E : Index.Mat CRat) (b c : List Nat)
+    (hb : Index.Valid (List.replicate L 2) b) (hc : Index.Valid (List.replicate L 2) c) :
+    get (ofIndexMat (2 ^ L) E) (Index.kronIdx (List.replicate L 2) b) (Index.kronIdx (List.replicate L 2) c)
+      = E.e (Index.kronIdx (List.replicate L 2) b) (Index.kronIdx (List.replicate L 2) c)
+    ∧ ∀ (A : Index.Mat CRat) (pre pre' post post' : List Nat) (x x' : Nat),
+        L = pre.length + 1 + post.length → pre'.length = pre.length → post'.length = post.length →
+        A.rows = 2 ∧ A.cols = 2 → (∀ z ∈ pre ++ x :: post, z < 2) → (∀ z ∈ pre' ++ x' :: post', z < 2) →
+        ∃ M, Index.embed1 L pre.length A = some M ∧
+          get (ofIndexMat (2 ^ L) M) (Index.kronIdx (List.replicate L 2) (pre ++ x :: post))
+              (Index.kronIdx (List.replicate L 2) (pre' ++ x' :: post'))
+            = if pre = pre' ∧ post = post' then A.e x x' else 0 := by
+  have hin : ∀ (E : Index.Mat CRat) (b c : List Nat), Index.Valid (List.replicate L 2) b →
+      Index.Valid (List.replicate L 2) c →
+      get (ofIndexMat (2 ^ L) E) (Index.kronIdx (List.replicate L 2) b) (Index.kronIdx (List.replicate L 2) c)
+        = E.e (Index.kronIdx (List.replicate L 2) b) (Index.kronIdx (List.replicate L 2) c) := by
+    intro E b c hb hc
+    have h1 := Index.kronIdx_lt hb
+    have h2 := Index.kronIdx_lt hc
+    rw [Index.dimProd_replicate] at h1 h2
+    exact get_tab _ _ _ _ h1 h2
+  refine ⟨hin E b c hb hc, ?_⟩
+  intro A pre pre' post post' x x' hL hp hq hA hz hz'
+  subst hL
+  obtain ⟨M, hM, he⟩ := Index.embed_site_one A pre pre' post post' x x' hp hq hA hz hz'
+  refine ⟨M, hM, ?_⟩
+  rw [hin M _ _ ((Index.valid_replicate_iff _ _ _).mpr ⟨by simp; omega, hz⟩)
+    ((Index.valid_replicate_iff _ _ _).mpr ⟨by simp; omega, hz'⟩)]
+  exact he
+
+/-- **C06.21 `solver_tol_rule`** (`solve_ivp(..., rtol=sim_params.threshold, atol=sim_params.threshold * 1e-2)`)
+    The tolerance rule the model encodes — and the tie compares with the keyword arguments the real `lindblad` hands to
+    `solve_ivp` — is: relative tolerance = the user's `threshold`, absolute tolerance = one hundredth of it; so for a
+    non-negative threshold `atol ≤ rtol`, both are positive iff the threshold is, and both scale linearly.
+    (`1e-2` is the binary64 nearest to 1/100; the tie compares at 1e-9 relative.) -/
+theorem solver_tol_rule (thr : Rat) :
+    solverTol thr = (thr, thr / 100)
+    ∧ (0 ≤ thr → (solverTol thr).2 ≤ (solverTol thr).1)
+    ∧ (0 < (solverTol thr).1 ↔ 0 < thr) ∧ (0 < (solverTol thr).2 ↔ 0 < thr)
+    ∧ ∀ s, solverTol (s * thr) = (s * (solverTol thr).1, s * (solverTol thr).2) := by
+  have e : solverTol thr = (thr, thr / 100) := by
+    unfold solverTol
+    rw [mul_one_div]
+  refine ⟨e, ?_, ?_, ?_, ?_⟩
+  · intro h; rw [e]; simp only; linarith
+  · rw [e]
+  · rw [e]; simp only
+    constructor <;> intro h <;> linarith
+  · intro s
+    unfold solverTol
+    simp only [mul_assoc]
+
+/-- **C06.22 `exec_first_order_jump_probability`** (`jumpWeights`, `pJump` and `heff` on lists) For a Hermitian `H`, a
+    unit state of the right length and the explicit Euler step `ψ₁ = ψ − i·dt·H_eff ψ` computed on lists (`eulerNext`):
+    `pJump ψ₁ = dt·Σ_k γ_k‖L_kψ‖² − dt²·‖H_eff ψ‖²` **exactly**, where the first-order coefficient is the sum of the very
+    numbers `jumpWeights` the code normalises into the vector for `rng.choice` (first conjunct: that sum, read through
+    `toM`/`toV`, is the sum in `heff_antihermitian_part` and `first_order_jump_probability`).  So "jump probability =
+    norm loss" (what the code computes) and "jump probability = `dt` × total rate" agree to first order in `dt`, with
+    the executable definitions on both sides; `exp(−i H_eff dt)ψ` differs from `ψ₁` by `O(dt²)` (cited, not formalised). -/
+theorem exec_first_order_jump_probability (m : Nat) (H : CMat) (Ls : List (Proc CMat)) (ψ : CVec) (dt : Rat)
+    (hH : (toM m H)ᴴ = toM m H) (hl : ψ.length = m) (h1 : vnormSq ψ = 1) :
+    CRat.ofRat (jumpWeights m Ls ψ).sum
+        = ((Ls.map (Proc.map (toM m))).map fun p =>
+            CRat.ofRat p.gamma * (star (p.op *ᵥ toV m ψ) ⬝ᵥ (p.op *ᵥ toV m ψ))).sum
+    ∧ pJump (eulerNext m (heff (listOps m) H Ls) dt ψ)
+        = dt * (jumpWeights m Ls ψ).sum - dt * dt * vnormSq (mulVec m (heff (listOps m) H Ls) ψ) := by
+  refine ⟨jumpWeights_eq m Ls ψ, ?_⟩
+  apply ofRat_inj
+  have hE : toM m (heff (listOps m) H Ls)
+      = heff (matrixOps CRat.I ⟨1 / 2, 0⟩ CRat.ofRat) (toM m H) (Ls.map (Proc.map (toM m))) :=
+    heff_hom (listOps_hom m) H Ls
+  have key := first_order_jump_probability (n := Fin m) CRat.I ⟨1 / 2, 0⟩ (by decide +kernel) CRat.I_mul_I
+    (by decide +kernel) (by decide +kernel) CRat.ofRat star_ofRat (toM m H) hH (Ls.map (Proc.map (toM m))) (toV m ψ)
+    (CRat.ofRat dt) (star_ofRat dt)
+  unfold pJump
+  rw [ofRat_sub, vnormSq_eq m (eulerNext m _ dt ψ) (length_vtab m _), toV_eulerNext, hE, key, ← jumpWeights_eq, ← vnormSq_eq m ψ hl, h1,
+    ← hE, ← vnormSq_mulVec, ofRat_sub, ofRat_mul, ofRat_mul, ofRat_mul]
+  simp only [ofRat_one]
+  ring
+
+/-! ### non-vacuity (one and two qubits over the Gaussian rationals) -/
+
+section ExamplesExec
+
+/-- lowering with `γ = 1/2` and `σ_z` with `γ = 1/4` on one qubit, `ψ = (3/5, 4/5)`, `ψ̃ = (3/5, 3/4)` -/
+def exLs : List (Proc CMat) := [⟨1 / 2, [[0, 1], [0, 0]]⟩, ⟨1 / 4, [[1, 0], [0, -1]]⟩]
+def exPsi : CVec := [⟨3 / 5, 0⟩, ⟨4 / 5, 0⟩]
+def exNext : CVec := [⟨3 / 5, 0⟩, ⟨3 / 4, 0⟩]
+
+/-- `p_jump = 31/400`; a draw just below jumps, the boundary draw and a draw above do not -/
+example : pJump exNext = 31 / 400
+    ∧ mcwfTaken 2 exLs exPsi exNext (30 / 400) 0 = some (.jump 0 [32 / 57, 25 / 57])
+    ∧ mcwfTaken 2 exLs exPsi exNext (31 / 400) 0 = some .noJump
+    ∧ mcwfTaken 2 exLs exPsi exNext (1 / 2) 0 = some .noJump
+    ∧ mcwfTaken 2 exLs exPsi exNext 0 2 = none := by decide +kernel
+
+/-- the `1e-15` fall-back: lowering on the vacuum has weight 0 although the draw asks for a jump; a second process on
+    the same site (raising) with non-zero weight gives a probability vector with an exact zero -/
+example : mcwfTaken 2 [⟨1 / 2, [[0, 1], [0, 0]]⟩] [1, 0] [⟨9 / 10, 0⟩, 0] 0 0 = some .noJumpEps
+    ∧ mcwfTaken 2 [⟨1 / 2, [[0, 1], [0, 0]]⟩, ⟨1 / 3, [[0, 0], [1, 0]]⟩] [1, 0] [⟨9 / 10, 0⟩, 0] 0 1
+        = some (.jump 1 [0, 1]) := by decide +kernel
+
+/-- post-jump state of the lowering jump: `L ψ = (4/5, 0)` with squared norm `16/25`, i.e. `|0⟩`; `⟨Z⟩` goes from
+    `−7/25` before to `1` after; the no-jump branch reports `⟨Z⟩` of the renormalised `ψ̃` -/
+example : postState 2 exLs exPsi exNext (.jump 0 [32 / 57, 25 / 57]) = ([⟨4 / 5, 0⟩, 0], 16 / 25)
+    ∧ postRho 2 exLs exPsi exNext (.jump 0 [32 / 57, 25 / 57]) = [[1, 0], [0, 0]]
+    ∧ oneStepCols 2 exLs [.op [[1, 0], [0, -1]], .diagnostic] true exPsi exNext (30 / 400) 0
+        = some [[-7 / 25, 0], [1, 0]]
+    ∧ oneStepCols 2 exLs [.op [[1, 0], [0, -1]], .diagnostic] false exPsi exNext (31 / 400) 0
+        = some [[-81 / 369, 0]]
+    ∧ opCalls 2 (.jump 0 [32 / 57, 25 / 57]) = [0, 1, 0] := by decide +kernel
+
+/-- the hypotheses of `mcwf_exec_post` (last two conjuncts) are met: length 2, norm not 0, entry of the vector not 0 -/
+example : (postState 2 exLs exPsi exNext (.jump 0 [32 / 57, 25 / 57])).1.length = 2
+    ∧ (postState 2 exLs exPsi exNext (.jump 0 [32 / 57, 25 / 57])).2 ≠ 0
+    ∧ ([32 / 57, 25 / 57] : List Rat)[0]? = some (32 / 57) ∧ (32 / 57 : Rat) ≠ 0 := by decide +kernel
+
+/-- `obs_exec` on a non-diagonal Hermitian observable (`Y`) and a complex state: both read-outs give `24/25`; the
+    Hermiticity hypotheses hold -/
+example : obsValuePure 2 [⟨3 / 5, 0⟩, ⟨0, 4 / 5⟩] 1 (.op [[0, ⟨0, -1⟩], [⟨0, 1⟩, 0]]) = 24 / 25
+    ∧ obsValue 2 (pureRho 2 [⟨3 / 5, 0⟩, ⟨0, 4 / 5⟩] 1) (.op [[0, ⟨0, -1⟩], [⟨0, 1⟩, 0]]) = 24 / 25
+    ∧ (toM 2 [[0, ⟨0, -1⟩], [⟨0, 1⟩, 0]])ᴴ = toM 2 [[0, ⟨0, -1⟩], [⟨0, 1⟩, 0]]
+    ∧ (toM 2 (pureRho 2 [⟨3 / 5, 0⟩, ⟨0, 4 / 5⟩] 1))ᴴ = toM 2 (pureRho 2 [⟨3 / 5, 0⟩, ⟨0, 4 / 5⟩] 1) := by
+  decide +kernel
+
+/-- two qubits: the lowering operator embedded on site 0 (`_embed_generic`), materialised by `ofIndexMat`, maps `|10⟩`
+    (index 2) to `|00⟩` (index 0) and `|11⟩` to `|01⟩`, and nothing else -/
+example : (Index.embed1 2 0 (Index.ofList 2 2 [(0 : CRat), 1, 0, 0])).map (ofIndexMat 4)
+    = some [[0, 0, 1, 0], [0, 0, 0, 1], [0, 0, 0, 0], [0, 0, 0, 0]] := by decide +kernel
+
+example : solverTol (1 / 1000000) = (1 / 1000000, 1 / 100000000) := by decide +kernel
+
+/-- `exec_first_order_jump_probability` on `H = X`, lowering with `γ = 1/2`, `ψ = (3/5, 4/5)`, `dt = 1/10`:
+    the hypotheses hold and both sides are `627/25000` -/
+example : (toM 2 [[0, 1], [1, 0]])ᴴ = toM 2 [[0, 1], [1, 0]] ∧ exPsi.length = 2 ∧ vnormSq exPsi = 1
+    ∧ pJump (eulerNext 2 (heff (listOps 2) [[0, 1], [1, 0]] [⟨1 / 2, [[0, 1], [0, 0]]⟩]) (1 / 10) exPsi)
+        = (1 / 10) * (jumpWeights 2 [⟨1 / 2, [[0, 1], [0, 0]]⟩] exPsi).sum
+          - (1 / 10) * (1 / 10) * vnormSq (mulVec 2 (heff (listOps 2) [[0, 1], [1, 0]] [⟨1 / 2, [[0, 1], [0, 0]]⟩]) exPsi) := by
+  decide +kernel
+
+end ExamplesExec
 
 end Yaqs.MasterEq
